@@ -111,7 +111,7 @@ def verdicts(chk: Check) -> None:
     rets = [r for r in ast.walk(pv.node) if isinstance(r, ast.Return) and r.value is not None and not (isinstance(r.value, ast.Constant))]
     err_ret = [r for r in rets if isinstance(r.value, ast.Call) and last_name(r.value) == 'PortValidationError' and r.value.args and isinstance(r.value.args[0], ast.Name)]
     errvar = err_ret[0].value.args[0].id if len(err_ret) == 1 else None   # the local that carries the message, whatever it is called
-    for c in [x for x in calls_in_func(pv) if norm(x.func) == 'self.validator']:
+    for c in [x for x in calls_in_func(pv) if norm(x.func) in ('self.validator', 'self._validator')]:
         node = ff.cfg.nodes_containing(c)[0]
         ok = node.kind == 'stmt' and isinstance(node.ast, ast.Assign) and errvar is not None
         if ok:
@@ -132,7 +132,7 @@ def verdicts(chk: Check) -> None:
         for txt, truth in given.items():
             k_, pol_ = _leaf(fff, ast.parse(txt, mode='eval').body)
             val[k_] = truth == pol_
-        asks = [m for m in fff.cfg.nodes if any(norm(c.func) == 'self.validator' for c in ([x for x in walk_shallow(m.expr()) if isinstance(x, ast.Call)] if m.expr() is not None else []))]
+        asks = [m for m in fff.cfg.nodes if any(norm(c.func) in ('self.validator', 'self._validator') for c in ([x for x in walk_shallow(m.expr()) if isinstance(x, ast.Call)] if m.expr() is not None else []))]
         skipped, n_acc = [], 0
         try:
             for path in _paths(fff, val, frozen=[f_.params[1]]):   # (re-binding the parameter to a copy of itself keeps what is known about it)
@@ -151,11 +151,11 @@ def verdicts(chk: Check) -> None:
     vpn = pv.params[1]
     from .common import sentinels_are_unique_objects
     sentinels_are_unique_objects(chk, 'DOM-verdict-not-dropped')
-    asked_on_every_accepting_path(pv, {f'{vpn} is UNSPECIFIED': False, 'self.validator is None': False, 'self._valid_type is None': True}, 'Port.validate, a value given and a validator configured')
+    asked_on_every_accepting_path(pv, {f'{vpn} is UNSPECIFIED': False, 'self._validator is None': False, 'self._valid_type is None': True}, 'Port.validate, a value given and a validator configured')
     nv = prog.func('ports.PortNamespace.validate')
     namespace_value_is_mapping(chk, 'DOM-verdict-not-dropped')
-    asked_on_every_accepting_path(nv, {'self.validator is None': False, f'{nv.params[1]}': True}, 'PortNamespace.validate, values given and a validator configured')
-    for c in [x for x in calls_in_func(nv) if norm(x.func) == 'self.validator']:
+    asked_on_every_accepting_path(nv, {'self._validator is None': False, f'{nv.params[1]}': True}, 'PortNamespace.validate, values given and a validator configured')
+    for c in [x for x in calls_in_func(nv) if norm(x.func) in ('self.validator', 'self._validator')]:
         ff = chk.ctx.facts.analyse(nv)
         ok, why = verdict_propagated(ff, c)
         chk.ob('DOM-verdict-not-dropped', nv, ok, f'namespace validator verdict: {why}', node=c, kind='validator-verdict')
@@ -271,7 +271,7 @@ def read_only(chk: Check) -> None:
     ok = any(b.endswith('Mapping') for b in bases) and not any('MutableMapping' in b for b in bases)
     chk.ob('OWN-frozen', fd.qualname, ok, f'Frozendict is a Mapping, not a MutableMapping (bases {bases[1:]})', kind='bases')
     for c in [fd] + prog.subclasses(fd):
-        for name, f in c.vmethods.items():
+        for name, f in c.emethods.items():
             if name == '__init__':
                 continue
             for n in ast.walk(f.node):
